@@ -957,9 +957,13 @@ where
 		}
 	};
 
+	// Report the outcome first and wait until the shutdown task has taken note of it (it drops its receiver
+	// right after storing the disconnect reason): the front-end must not observe the closed channel before
+	// the reason is readable.
+	let _ = close_tx.send(res).await;
+	close_tx.closed().await;
 	from_frontend.close();
 	let _ = sender.close().await;
-	let _ = close_tx.send(res).await;
 }
 
 struct ReadTaskParams<R: TransportReceiverT, S> {
